@@ -145,6 +145,10 @@ class Env(object):
     def zero(self, name, a, **meta):
         self.obls.append(Obl("equal", name, a, 0, meta))
 
+    def nonneg(self, name, a, **meta):
+        """a >= 0 on the whole admissible domain (e.g. a principal minor of a covariance matrix)"""
+        self.obls.append(Obl("nonneg", name, a, None, meta))
+
     def finite(self, name, value, **meta):
         """every division, root and logarithm inside the term(s) `value` is defined (non-zero denominator,
         non-negative radicand, positive log argument) on this path  =>  the output is a finite real"""
@@ -333,6 +337,28 @@ def run_symbolic(h, mods, cfg, timeout_ms=20000, max_paths=64, label=""):
                     rec["model_float"] = {k: float(val) for k, val in mv.items()}
                 recs.append(rec)
                 continue
+            if ob.kind == "nonneg":
+                g = _e(ob.got)
+                if getattr(ex, "eps_zero", False):
+                    g = dag.subst(g, {dag.var("EPS"): ZERO})
+                try:
+                    P = poly.Normalizer()(g)
+                    PL = poly.PolyLower()
+                    zg = PL.poly(P)
+                    side = PL.side + PL.congruence()
+                except (poly.TooBig, NotImplementedError):
+                    zg = ex.low(g)
+                    side = list(ex.low.side) + ex.low.congruence()
+                cons = list(ex.assume) + ex.path_constraints() + list(ex.low.side) + side + [zg < 0]
+                v, dt, m, s = solve(cons, timeout_ms, want_model=True)
+                t_solver += dt
+                rec = Record(kind="nonneg", name=label + "/" + ob.name, path=pid, verdict=v, t=round(dt, 4), size=dag.size(g), trivial=False, phase="normalised")
+                if v == "sat":
+                    mv = model_values(m, names + ["EPS"])
+                    rec["model"] = {k: str(val) for k, val in mv.items()}
+                    rec["model_float"] = {k: float(val) for k, val in mv.items()}
+                recs.append(rec)
+                continue
             if ob.kind == "finite":
                 for rec in _finite_records(ex, env, ob, label, pid, names, timeout_ms):
                     t_solver += rec["t"]
@@ -489,6 +515,9 @@ def replay_obligation(h, mods, cfg, values, obl_name, rtol=1e-6):
     ob = obs[0]
     if ob.kind == "fact":
         return dict(confirmed=not ob.got, detail=ob.meta.get("detail"))
+    if ob.kind == "nonneg":
+        a = _f(ob.got)
+        return dict(confirmed=bool(a < -1e-12 * (1 + abs(a))), detail="value on the unmodified code: %r" % a)
     if ob.kind == "finite":
         vals = ob.got if isinstance(ob.got, (list, tuple)) else [ob.got]
         flat = np.concatenate([np.asarray(v, dtype=float).ravel() for v in vals])
